@@ -454,3 +454,11 @@ def replay(spec):
     if not np.allclose(P3, P2 @ P1, rtol=1e-10, atol=1e-13) or not np.allclose(Q3, P2 @ Q1 @ P2.T + Q2, rtol=1e-9, atol=1e-13):
         fails.append('composition law violated')
     return {'violated': bool(fails), 'detail': fails}
+
+
+RIM = {'lat': -84.6, 'lon': 150.0, 'alt': 15000.0, 'VN': 250.0, 'VE': -200.0, 'VD': 5.0, 'roll': 120.0, 'pitch': -60.0, 'heading': -170.0}
+
+
+def FALLBACK(tier):
+    """numeric oracle specs put to the compiled code when the symbolic run is inconclusive (main.py)"""
+    return [{'check': 'series', 'point': {}, 'params': {'n': n}} for n in (1, 2, 3)] + [{'check': 'nilpotent', 'point': {}, 'params': {'n': n}} for n in (2, 3)] + [{'check': 'typed', 'point': {}}, {'check': 'diagonal', 'point': {}}]
